@@ -125,10 +125,15 @@ def search(ctx):
     rng = ctx.rng('search')
     directed = directed_twins() + directed_wide(ctx.rng('search-wide'))
     for k in range(-len(directed), ctx.scale(150, 4000)):
-        if k < 0:
+        if k >= 0 and k % 25 == 7:
+            # a large circuit (250..400 gates over three inputs, heavily reconvergent): size-dependent code paths
+            j, info = gen.gen_circuit(rng, max_inputs=3, min_inputs=3, max_gates=400, min_gates=260, max_arity=3, n_outputs=rng.choice([1, 2]),
+                                      p_output_is_input=0.0)
+            ctx.count('large_circuit')
+        elif k < 0:
             j, info = directed[k], {'n_gates': 5, 'n_inputs': 2, 'twin': 1}
             ctx.count('directed_twins_and_wide_gates')
-        else:
+        elif k % 25 != 7:
             j, info = gen.gen_circuit(rng, max_inputs=ctx.scale(4, 6), max_gates=ctx.scale(10, 20), max_arity=5,
                                       p_twin=0.2 if k % 2 == 0 else 0.0,
                                       types=(gen.CMP + gen.LR) * 3 + gen.SYM_NARY + gen.UNARY + gen.CONST if k % 4 == 0 else None)
